@@ -71,13 +71,17 @@ def applyFrames : Peer → List (List (Nat × Nat)) → Except Verdict Peer
     | .error v => .error v
 
 /-- what a caller observes of a connection whose first SETTINGS frame is `f` and that then serves a
-request: an error (the connection is torn down) or a response. A concurrency limit of 0 never lets
-the request start (the client's own timeout ends the call). -/
-def callOutcome (f : List (Nat × Nat)) : String :=
+request with a header block of `blockLen` bytes (no header priority): an error (the connection is
+torn down with that code) or a response, the first HEADERS frame of the request carrying
+`min blockLen maxFrameSize` bytes. A concurrency limit of 0 never lets the request start (the
+client's own timeout ends the call). -/
+def callOutcome (f : List (Nat × Nat)) (blockLen : Nat) : String :=
   match applyFrame {} f with
-  | .error .protocolError => "conn-error PROTOCOL_ERROR"
-  | .error .flowControlError => "conn-error FLOW_CONTROL_ERROR"
+  | .error .protocolError => "conn-error 1"
+  | .error .flowControlError => "conn-error 3"
   | .error .accept => "bad-op"
-  | .ok p => if p.maxConcurrent = 0 then "blocked" else "response maxframe=" ++ toString p.maxFrameSize
+  | .ok p =>
+    if p.maxConcurrent = 0 then "blocked"
+    else "response first=" ++ toString (min blockLen p.maxFrameSize)
 
 end Req.C07.H2Settings
